@@ -112,8 +112,8 @@ def check_structure(ctx, cl, case, full: bool, rng):
                 got = [frozenset((tuple(int(x) for x in e[0]), tuple(int(x) for x in e[1]))) for e in al]
                 ok = len(got) == len(E) and set(got) == E and all(len(e) == 2 for e in got)
                 ctx.check(ok, "C13/adj-list-wrong", lambda: f"shuffle=({sd0},{sd1}) got {len(got)} entries, {len(set(got))} distinct; expected {len(E)}", case)
-                if not sd1 and ok:
-                    ctx.check(all(tuple(e[0]) <= tuple(e[1]) for e in al.tolist()), "C13/adj-list-unshuffled-not-smaller-first", f"{al.tolist()}", case)
+                if not sd1 and ok and all(tuple(e[0]) <= tuple(e[1]) for e in al.tolist()):
+                    ctx.tally("c13:adj-list-unshuffled-smaller-first(observed, not judged: the statement allows either orientation)")
     # is_connection on all lattice edges, both orientations, plus as batch
     slots = ref.lattice_edge_slots(R, C)
     if slots:
